@@ -4,7 +4,7 @@
 DIR="$(cd "$(dirname "${BASH_SOURCE[0]}")/.." && pwd)"
 ID="$1"; SD="$(realpath "$2")"; NAME="$3"; CHECKS="${4:-$ID}"
 W=$(mktemp -d /dev/shm/seed.XXXXXX); trap 'rm -rf "$W"' EXIT
-mkdir -p "$W/clean" "$W/mut"
+mkdir -p "$W/clean" "$W/mut" "$W/tmp"; export TMPDIR="$W/tmp"   # suite and demos leave mkdtemp directories behind: keep them in the scratch copy
 (cd /repo && git ls-files -z | xargs -0 cp --parents -t "$W/clean"); cp -r "$W/clean/." "$W/mut/"
 (cd "$W/mut" && git init -q . >/dev/null 2>&1; git apply --whitespace=nowarn "$SD/patch.diff" 2>"$W/apply.err" || patch -p1 -s < "$SD/patch.diff" 2>>"$W/apply.err") || { echo "SEED $NAME: PATCH-DOES-NOT-APPLY $(head -2 $W/apply.err)"; exit 2; }
 rm -rf "$W/mut/.git"
